@@ -1,5 +1,192 @@
 import Tibc.LC.Eth
+/-
+  C18 — ETH client accepts only valid children of known headers, keeps one chain.
+  PROPERTY THEOREMS ONLY.
+-/
 namespace Tibc.C18
 open Tibc Tibc.ETH
-theorem placeholder : True := trivial
+
+def Structural (h : Hdr) : Prop :=
+  h.extraLen ≤ 32 ∧ h.gasLimit ≤ 2^63 - 1 ∧ h.gasUsed ≤ h.gasLimit ∧ h.wellFormed = true ∧
+  (h.number = 0 ∨ h.difficulty ≠ 0)
+
+/-- **Accept iff the rule holds.** The header-validity check of the ETH client passes exactly
+    when: the header is not one the client already has; its parent (the header stored under the
+    parent hash one height below) is stored; its timestamp is later than the parent's and not more
+    than 15 seconds ahead of chain time; its gas limit stays within parent/1024 of the parent's and
+    is at least 5000; its base fee is the EIP-1559 value computed from the parent; its difficulty is
+    the prescribed value; its proof-of-work seal is valid; and the stateless checks pass. -/
+theorem eth_accepts_iff (c : Client) (h : Hdr) (now : Nat) :
+    accepts c h now = true ↔
+      Structural h ∧ c.idx (h.hash, h.number) = none ∧
+      ∃ p, h.number ≠ 0 ∧ c.idx (h.parent, h.number - 1) = some p ∧
+        h.time ≤ now + 15 ∧ p.time < h.time ∧
+        absDiff p.gasLimit h.gasLimit < p.gasLimit / 1024 ∧ 5000 ≤ h.gasLimit ∧
+        h.baseFee = calcBaseFee p ∧ h.difficulty = calcDifficulty h.time p ∧ h.sealOk = true := by
+  unfold accepts
+  have hvb : validateBasic h = true ↔ Structural h := by
+    unfold validateBasic Structural
+    simp only [Bool.and_eq_true, Bool.or_eq_true, decide_eq_true_eq, beq_iff_eq, bne_iff_ne, ne_eq]
+    constructor
+    · rintro ⟨⟨⟨⟨a, b⟩, c'⟩, d⟩, e⟩; exact ⟨a, b, c', d, e⟩
+    · rintro ⟨a, b, c', d, e⟩; exact ⟨⟨⟨⟨a, b⟩, c'⟩, d⟩, e⟩
+  rw [Bool.and_eq_true, Bool.and_eq_true, hvb, Option.isNone_iff_eq_none]
+  unfold parentOf
+  by_cases h0 : h.number = 0
+  · simp [h0]
+  · have hb : (h.number == 0) = false := by simpa using h0
+    simp only [hb, Bool.false_eq_true, if_false]
+    cases hp : c.idx (h.parent, h.number - 1) with
+    | none => simp
+    | some p =>
+      simp only [gasLimitOk, Bool.and_eq_true, decide_eq_true_eq, beq_iff_eq, Option.some.injEq, exists_eq_left', ne_eq,
+        h0, not_false_eq_true, true_and, ge_iff_le, gt_iff_lt]
+      constructor
+      · rintro ⟨⟨a, b⟩, ⟨⟨⟨⟨⟨d, e⟩, f, g⟩, i⟩, j⟩, k⟩⟩; exact ⟨a, b, d, e, f, g, i, j, k⟩
+      · rintro ⟨a, b, d, e, f, g, i, j, k⟩; exact ⟨⟨a, b⟩, ⟨⟨⟨⟨⟨d, e⟩, f, g⟩, i⟩, j⟩, k⟩⟩
+
+/-- a refused update returns no state: nothing changes (`Option.none`); in particular a header the
+    client already has, or one whose parent it has not stored, is refused -/
+theorem eth_known_header_refused (c : Client) (h hd : Hdr) (now : Nat) (hk : c.idx (h.hash, h.number) = some hd) :
+    checkHeaderAndUpdate c h now = none := by
+  have : accepts c h now = false := by
+    cases ha : accepts c h now with
+    | false => rfl
+    | true => rw [((eth_accepts_iff c h now).mp ha).2.1] at hk; cases hk
+  unfold checkHeaderAndUpdate
+  simp [this]
+
+theorem eth_unknown_parent_refused (c : Client) (h : Hdr) (now : Nat) (hk : c.idx (h.parent, h.number - 1) = none) :
+    checkHeaderAndUpdate c h now = none := by
+  have : accepts c h now = false := by
+    cases ha : accepts c h now with
+    | false => rfl
+    | true =>
+      obtain ⟨_, _, p, _, hp, _⟩ := (eth_accepts_iff c h now).mp ha
+      rw [hk] at hp; cases hp
+  unfold checkHeaderAndUpdate
+  simp [this]
+
+/-- only headers passing the validity check are ever accepted -/
+theorem eth_accepted_valid (c c' : Client) (h : Hdr) (now : Nat) (hok : checkHeaderAndUpdate c h now = some c') :
+    accepts c h now = true := by
+  unfold checkHeaderAndUpdate at hok
+  split at hok
+  · cases hok
+  · split at hok
+    · cases hok
+    · rename_i ha; simpa using ha
+
+/-- consensus states written by the main-chain rewrite are those of stored headers at that height -/
+theorem rewrite_latest (c c' : Client) (l : List Hdr) (n : Nat) (h : rewrite c l n = some c') : c'.latest = c.latest ∧ c'.idx = c.idx := by
+  induction l generalizing c n with
+  | nil => simp only [rewrite, Option.some.injEq] at h; subst h; exact ⟨rfl, rfl⟩
+  | cons x rest ih =>
+    simp only [rewrite] at h
+    cases hx : c.idx (x.hash, n) with
+    | none => rw [hx] at h; cases h
+    | some hd =>
+      rw [hx] at h
+      simp only at h
+      have := ih _ _ h
+      exact ⟨this.1, this.2⟩
+
+/-- **Effect of acceptance.** The accepted header becomes the latest header, the consensus state
+    exposed for its height is its own (time, number, root), and it is stored in the header index. -/
+theorem eth_accept_effect (c c' : Client) (h : Hdr) (now : Nat) (hok : checkHeaderAndUpdate c h now = some c') :
+    c'.latest = h ∧ c'.cons h.number = some (consOf h) := by
+  unfold checkHeaderAndUpdate at hok
+  split at hok
+  · cases hok
+  · split at hok
+    · cases hok
+    · cases hp : prune c now with
+      | none => rw [hp] at hok; cases hok
+      | some c1 =>
+        rw [hp] at hok
+        simp only at hok
+        split at hok
+        · cases hok
+        · simp only [Option.some.injEq] at hok
+          subst hok
+          exact ⟨rfl, by simp [upd]⟩
+
+/-! ### the EIP-1559 / difficulty calculators -/
+
+theorem baseFee_at_target (p : Hdr) (h : p.gasUsed = p.gasLimit / 2) : calcBaseFee p = p.baseFee := by
+  unfold calcBaseFee; simp [h]
+
+theorem baseFee_above_target (p : Hdr) (h : p.gasUsed > p.gasLimit / 2) : calcBaseFee p > p.baseFee := by
+  unfold calcBaseFee
+  have h1 : ¬ (p.gasUsed = p.gasLimit / 2) := by omega
+  simp only [beq_iff_eq, h1, if_false, h, if_true]
+  have : max (p.baseFee * (p.gasUsed - p.gasLimit / 2) / (p.gasLimit / 2) / 8) 1 ≥ 1 := Nat.le_max_right _ _
+  omega
+
+theorem baseFee_below_target (p : Hdr) (h : p.gasUsed < p.gasLimit / 2) : calcBaseFee p ≤ p.baseFee := by
+  unfold calcBaseFee
+  have h1 : ¬ (p.gasUsed = p.gasLimit / 2) := by omega
+  have h2 : ¬ (p.gasUsed > p.gasLimit / 2) := by omega
+  simp only [beq_iff_eq, h1, if_false, h2]
+  exact Nat.sub_le _ _
+
+theorem difficulty_at_least_minimum (t : Nat) (p : Hdr) : calcDifficulty t p ≥ 131072 := by
+  unfold calcDifficulty
+  simp only
+  generalize (if (if p.number ≥ bombDelayFromParent then p.number - bombDelayFromParent else 0) / 100000 > 1 then
+    2 ^ ((if p.number ≥ bombDelayFromParent then p.number - bombDelayFromParent else 0) / 100000 - 2) else 0 : Nat) = bomb
+  split <;> omega
+
+/-! ### one chain: the root-index weakness (known finding F-C18b), evaluated on the model -/
+
+def mk (n : Nat) (hash parent root : String) (time : Nat) : Hdr :=
+  { number := n, hash := hash, parent := parent, time := time, root := root, gasLimit := 30000000, gasUsed := 15000000,
+    baseFee := 100, difficulty := 131072, uncles := false, extraLen := 0, wellFormed := true, sealOk := true }
+
+def G : Hdr := mk 100 "G" "x" "rG" 1000
+def c0 : Client :=
+  { latest := G, period := 100000, heights := [100],
+    idx := fun k => if k == ("G", 100) then some G else none,
+    rootMain := fun k => if k == ("rG", 100) then some ("G", 100) else none,
+    cons := fun n => if n == 100 then some (consOf G) else none }
+
+/-- apply updates whose validity is not at stake here (the rewrite logic is) -/
+def force (c : Client) (h : Hdr) : Option Client :=
+  let c2 := index c h
+  let c3 := if c.latest.hash == h.parent then some c2 else restrict c2 c.latest h
+  c3.map (fun c3 => { c3 with latest := h, cons := upd c3.cons h.number (some (consOf h)), heights := insertHeight h.number c3.heights })
+
+def scenario : Option Client := do
+  let c ← force c0 (mk 101 "A1" "G" "rA1" 1001)
+  let c ← force c (mk 102 "A2" "A1" "R" 1002)
+  let c ← force c (mk 103 "A3" "A2" "rA3" 1003)
+  let c ← force c (mk 101 "B1" "G" "rB1" 1011)
+  let c ← force c (mk 102 "B2" "B1" "R" 1012)      -- the same state root as A2
+  let c ← force c (mk 104 "A4" "A3" "rA4" 1004)
+  force c (mk 102 "N2" "B1" "rN2" 1022)
+
+/-- after the scripted history the latest header is N2 (ancestors B1, G) but the consensus state
+    exposed for height 101 is A1's: the one-chain clause fails when two stored headers of one
+    height share a state root. Replayed on the real client by the eth stream (F-C18b). -/
+theorem same_root_breaks_one_chain :
+    (scenario.map (fun c => (c.latest.hash, (c.cons 101).map (·.root)))) = some ("N2", some "rA1") := by
+  decide
+
+/-- with distinct roots the same history ends on one chain -/
+def scenarioDistinct : Option Client := do
+  let c ← force c0 (mk 101 "A1" "G" "rA1" 1001)
+  let c ← force c (mk 102 "A2" "A1" "rA2" 1002)
+  let c ← force c (mk 103 "A3" "A2" "rA3" 1003)
+  let c ← force c (mk 101 "B1" "G" "rB1" 1011)
+  let c ← force c (mk 102 "B2" "B1" "rB2" 1012)
+  let c ← force c (mk 104 "A4" "A3" "rA4" 1004)
+  force c (mk 102 "N2" "B1" "rN2" 1022)
+
+example : (scenarioDistinct.map (fun c => (c.latest.hash, (c.cons 101).map (·.root), (c.cons 102).map (·.root)))) =
+    some ("N2", some "rB1", some "rN2") := by decide
+
+/-- Non-vacuity of the acceptance rule: a valid child of `G` is accepted. -/
+def child : Hdr := { mk 101 "A1" "G" "rA1" 1010 with difficulty := calcDifficulty 1010 G, baseFee := calcBaseFee G }
+example : (checkHeaderAndUpdate c0 child 1005).isSome = true := by decide
+
 end Tibc.C18
